@@ -378,7 +378,7 @@ Proof.
       destruct HP as [_ HP]. specialize (HP sid). specialize (Hkept sid). unfold msg_req in HP. simpl.
       rewrite Nat.eqb_refl. simpl in *. lia. }
     destruct d; intros E; try discriminate; injection E as <-; rewrite Hfresh; apply Fin; intros sid; rewrite El;
-      destruct (c_sender x); try apply eose_filter_le; lia.
+      (destruct ((0 <? c_throttle x)%Z && c_sender x); [lia | apply eose_filter_le]).
 Qed.
 
 Theorem run_acc cfg ops : forall st st' n,
